@@ -249,6 +249,9 @@ func scenariosFor(tier string) []vrt.Scenario {
 	s2 := []raterun.Schedule{{StartDelay: 0, Frequency: ms(100)}, {StartDelay: ms(250), Frequency: ms(50)}}
 	s3 := []raterun.Schedule{{StartDelay: time.Nanosecond, Frequency: ms(80)}, {StartDelay: time.Second, Frequency: ms(250)}}
 	s4 := []raterun.Schedule{{StartDelay: 0, Frequency: ms(100)}, {StartDelay: ms(200), Frequency: ms(50)}} // switch coincides with a tick
+	// a first schedule that starts late: nothing may be invoked during its start delay
+	s5 := []raterun.Schedule{{StartDelay: ms(300), Frequency: ms(50)}}
+	s6 := []raterun.Schedule{{StartDelay: ms(250), Frequency: ms(100)}, {StartDelay: ms(200), Frequency: ms(50)}}
 	sl := func(n int) step { return step{"sleep", ms(n)} }
 	stop, cancel, restart := step{op: "stop"}, step{op: "cancel"}, step{op: "restart"}
 	var out []vrt.Scenario
@@ -274,6 +277,8 @@ func scenariosFor(tier string) []vrt.Scenario {
 		add(b, s2, ms(30), sl(100), cancel, stop)
 		add(b, s2, ms(30), sl(310), restart, sl(300), stop) // Restart while an invocation of the later schedule is in flight
 		add(b, s2, ms(120), sl(400), restart, sl(900), stop)
+		add(b, s5, 0, sl(520), stop)
+		add(b, s6, ms(30), sl(300), restart, sl(600), stop)
 		out = append(out, scenario(cfg{s2, ms(30), []step{sl(150), restart, sl(300), stop}}).WithPlainPoints(1))
 		out = append(out, scenario(cfg{s1, ms(30), []step{sl(110), stop}}).WithPlainPoints(1))
 		return out
@@ -293,6 +298,12 @@ func scenariosFor(tier string) []vrt.Scenario {
 	}
 	add(2, s3, 0, sl(1300), stop)
 	add(2, s3, ms(30), sl(1001), restart, sl(90), stop)
+	for _, fn := range []time.Duration{0, ms(30)} {
+		add(2, s5, fn, sl(520), stop)
+		add(2, s5, fn, sl(200), restart, sl(400), stop)
+		add(2, s6, fn, sl(300), restart, sl(600), stop)
+		add(2, s6, fn, sl(700), cancel, stop)
+	}
 	out = append(out, scenario(cfg{s2, ms(30), []step{sl(150), restart, sl(300), stop}}).WithPlainPoints(2))
 	out = append(out, scenario(cfg{s1, ms(30), []step{sl(110), stop}}).WithPlainPoints(2))
 	out = append(out, scenario(cfg{s2, 0, []step{sl(260), cancel, stop}}).WithPlainPoints(2))
